@@ -1,4 +1,6 @@
 import CssVerif.Model.Profiles
+import CssVerif.Model.MacroRank
+import CssVerif.Model.ProfilesSpec
 import CssVerif.Gen.C14Profiles
 import Std.Data.HashMap
 import Std.Data.HashSet
@@ -19,6 +21,11 @@ Stateful line-protocol driver for the profile-registry model (C14). See `tools/h
   vwp <name> <value> <names> validateWithProfile                                             -> OK v m a,b | ERR <exc>
   pbp <names>                propertiesByProfile                                             -> OK a,b | ERR <exc>
   expand <macros> <value>    _expand_macros on one value with exactly these macros           -> OK <s> | ERR <exc>
+  spec <names> <name> <props> <macros> ...   the observables of the registry computed from these contents and this
+                             defaultProfiles value alone (`specReg`), same format as dump                 -> names=...
+  phs <value>                the placeholder names of the value (re.findall)                 -> OK a,b
+  acyc <macros>              cycle check and closedness of a macro set                       -> OK 0|1 0|1
+  passes <macros> <value>    number of re.sub passes, and the proved bound (- if cyclic)     -> OK <n> <bound> | ERR <exc>
 -/
 open CssVerif.Proto CssVerif.Profiles
 
@@ -28,7 +35,7 @@ structure St where
   acc : Std.HashSet (Nat × Str)
   accFn : Std.HashSet (Nat × Str)
 
-def theCfg : Cfg := { base := CssVerif.Gen.C14.base, fuel := 200 }
+def theCfg : Cfg := CssVerif.Gen.C14.cfg
 
 def showExc : Exc → String
   | .keyError k => "KeyError " ++ encCps k
@@ -137,7 +144,12 @@ def stepLine (st : St) (line : String) : St × String :=
   | ["initcheck"] =>
       -- the hypotheses of `C14.init_contents` for the generated tables: the names differ, construction succeeds
       let l := CssVerif.Gen.C14.builtins
+      let env := CssVerif.Gen.C14.envLit
       let ok := decide ((l.map (·.name)).Nodup) && (init theCfg l).2.isNone
+        -- the premises of `C14.builtin_init_ok` / `builtin_acyclic`, evaluated once more by compiled code
+        && decide (CssVerif.Gen.C14.base = theCfg.base)
+        && l.foldl (fun m d => dupdate m (if truthy d.macros then d.macros.getD [] else [])) theCfg.base == env
+        && acyclicB env && l.all (fun d => propsDeepB env theCfg.fuel d.props)
       (st, if ok then "OK" else "FAIL")
   | ["add", n, p, m] => match decCps n, decProps p, decMacros m with
       | some n, some p, some m =>
@@ -192,6 +204,25 @@ def stepLine (st : St) (line : String) : St × String :=
   | ["expand", m, v] => match decMacros m, decCps v with
       | some m, some v => match expandValue (m.getD []) theCfg.fuel v with
           | .ok s => (st, "OK " ++ encCps s)
+          | .error e => (st, "ERR " ++ showExc e)
+      | _, _ => (st, "bad-op")
+  | "spec" :: dflt :: rest => match decNames dflt, decDefs rest with
+      | some dflt, some l =>
+          (st, dump st.pats (specReg theCfg (l.map fun e => (e.name, e.props, e.macros.getD [])) dflt) [])
+      | _, _ => (st, "bad-op")
+  | ["phs", v] => match decCps v with
+      | some v => (st, "OK " ++ listEnc (phNames v))
+      | none => (st, "bad-op")
+  | ["acyc", m] => match decMacros m with
+      | some m =>
+          let m := m.getD []
+          (st, "OK " ++ (if acyclicB m then "1 " else "0 ") ++ (if closedB m then "1" else "0"))
+      | none => (st, "bad-op")
+  | ["passes", m, v] => match decMacros m, decCps v with
+      | some m, some v =>
+          let m := m.getD []
+          match passCount m theCfg.fuel v with
+          | .ok n => (st, "OK " ++ toString n ++ " " ++ (if acyclicB m then toString (depth (rankFn m) v) else "-"))
           | .error e => (st, "ERR " ++ showExc e)
       | _, _ => (st, "bad-op")
   | _ => (st, "bad-op")
